@@ -19,6 +19,7 @@ import (
 	"github.com/libp2p/go-libp2p/core/peer"
 	"github.com/libp2p/go-libp2p/internal/verifh"
 	"github.com/libp2p/go-libp2p/p2p/protocol/autonatv2/pb"
+	ma "github.com/multiformats/go-multiaddr"
 	"google.golang.org/protobuf/proto"
 )
 
@@ -63,6 +64,69 @@ func newC16RL(out *verifh.Out, rpm, pp, dd, mc int) *c16RL {
 		out:  out,
 		infl: map[int64]int{},
 	}
+}
+
+// the limiter of a server built through the public path: New + WithServerRateLimit.  The case
+// header carries the values the USER passed, never what ended up in the struct.
+func newC16RLViaOptions(out *verifh.Out, rpm, pp, dd, mc int) *c16RL {
+	h := newC16RL(out, rpm, pp, dd, mc)
+	an, err := New(nil, WithServerRateLimit(rpm, pp, dd, mc))
+	if err != nil {
+		panic(err)
+	}
+	h.r = an.srv.limiter
+	h.r.now = h.clk.Now // the only test plumbing: a virtual clock
+	out.Cover("rl.limiter_built_by_New_WithServerRateLimit")
+	return h
+}
+
+// four pairwise different limits
+func c16Distinct(r *verifh.Rand, lo, span int) (int, int, int, int) {
+	v := make([]int, 0, 4)
+	for len(v) < 4 {
+		x := lo + r.Intn(span)
+		dup := false
+		for _, y := range v {
+			dup = dup || x == y
+		}
+		if !dup {
+			v = append(v, x)
+		}
+	}
+	return v[0], v[1], v[2], v[3]
+}
+
+// kind 3: what New(...) hands to the server for a given set of options
+func c16Wiring(out *verifh.Out, r *verifh.Rand) {
+	rpm, pp, dd, mc := c16Distinct(r, 1, 200)
+	opts := []AutoNATOption{WithServerRateLimit(rpm, pp, dd, mc)}
+	ap := int64(0)
+	if r.Bool() {
+		opts = append(opts, AllowPrivateAddrs)
+		ap = 1
+	}
+	if r.Bool() { // order of options must not matter
+		opts[0], opts[len(opts)-1] = opts[len(opts)-1], opts[0]
+	}
+	an, err := New(nil, opts...)
+	if err != nil {
+		panic(err)
+	}
+	l := an.srv.limiter
+	gap := int64(0)
+	if an.srv.allowPrivateAddrs {
+		gap = 1
+	}
+	// the default data-request policy must be the amplification check: same IP -> no data, other IP -> data
+	pol := int64(0)
+	same := an.srv.dialDataRequestPolicy(ma.StringCast("/ip4/1.2.3.4/tcp/1"), ma.StringCast("/ip4/1.2.3.4/udp/9/quic-v1"))
+	other := an.srv.dialDataRequestPolicy(ma.StringCast("/ip4/1.2.3.4/tcp/1"), ma.StringCast("/ip4/1.2.3.5/tcp/1"))
+	if !same && other {
+		pol = 1
+	}
+	out.Case([]int64{3, int64(rpm), int64(pp), int64(dd), int64(mc), ap, 1,
+		int64(l.RPM), int64(l.PerPeerRPM), int64(l.DialDataRPM), int64(l.MaxConcurrentRequestsPerPeer), gap, pol})
+	out.Cover("wiring.cases")
 }
 
 func (h *c16RL) boundaryHit() bool {
@@ -213,12 +277,21 @@ func c16RLRandom(out *verifh.Out, r *verifh.Rand, length int) {
 		rpm, pp, dd, mc = r.Intn(3), r.Intn(3), r.Intn(2), r.Intn(3)
 		npeers = 1 + r.Intn(3)
 		out.Cover("rl.config.degenerate")
+	case 2, 3: // four pairwise different small limits
+		rpm, pp, dd, mc = c16Distinct(r, 1, 7)
+		npeers = 1 + r.Intn(5)
+		out.Cover("rl.config.all_different")
 	default:
 		rpm, pp, dd, mc = 1+r.Intn(8), 1+r.Intn(4), 1+r.Intn(3), 1+r.Intn(3)
 		npeers = 1 + r.Intn(5)
 		out.Cover("rl.config.small")
 	}
-	h := newC16RL(out, rpm, pp, dd, mc)
+	var h *c16RL
+	if r.Chance(2, 3) {
+		h = newC16RLViaOptions(out, rpm, pp, dd, mc)
+	} else {
+		h = newC16RL(out, rpm, pp, dd, mc)
+	}
 	closeAt := -1
 	if r.Chance(1, 8) {
 		closeAt = length/2 + r.Intn(length/2+1)
@@ -232,7 +305,7 @@ func c16RLRandom(out *verifh.Out, r *verifh.Rand, length int) {
 		switch {
 		case k < 10:
 			h.accept(int64(r.Intn(npeers)))
-		case k < 13:
+		case k < 14:
 			h.acceptDD()
 		case k < 19:
 			// complete a request in flight, if any
@@ -563,6 +636,9 @@ func TestVerifC16(t *testing.T) {
 	c16RLExhaustive(out, c16Scale(3, 4))
 	for i := 0; i < c16Scale(1500, 20000); i++ {
 		c16RLRandom(out, r.Fork(), 20+r.Intn(c16Scale(200, 600)))
+	}
+	for i := 0; i < c16Scale(200, 2000); i++ {
+		c16Wiring(out, r.Fork())
 	}
 	c16DialDataBoundaries(out)
 	for i := 0; i < c16Scale(3000, 60000); i++ {
